@@ -50,6 +50,12 @@ def records_of(calc, tag):
     for key in calc.modulus_keys:
         add("field", "c%d%ds" % key.voigt, vb.modulus_adiabatic[key], pb.modulus_adiabatic[key])
         add("field", "c%d%dt" % key.voigt, vb.modulus_isothermal[key], pb.modulus_isothermal[key])
+    # the conversion is linear in the converted field: (adiabatic - isothermal) must convert like any other field.  Its own
+    # scale makes this sensitive to the two tensors being confused with each other on the pressure base.
+    for key in calc.modulus_keys:
+        gv = numpy.asarray(vb.modulus_adiabatic[key]) - numpy.asarray(vb.modulus_isothermal[key])
+        if key.voigt[0] <= 3 and key.voigt[1] <= 3 and numpy.all(numpy.isfinite(gv)) and float(numpy.max(numpy.abs(gv))) > 0:
+            add("field", "gap:c%d%d" % key.voigt, gv, numpy.asarray(pb.modulus_adiabatic[key]) - numpy.asarray(pb.modulus_isothermal[key]))
     k0 = calc.modulus_keys[0]
     add("field", "attr:c%d%ds" % k0.voigt, getattr(vb, "c%d%ds" % k0.voigt), getattr(pb, "c%d%ds" % k0.voigt))
     for n in NAMES:
@@ -156,7 +162,10 @@ def main(ctx, replay=None):
             hmin, hmax = float(last.min()), float(last.max())
             if cls == "between" and (hmax - hmin) < 0.02 * abs(hmin):
                 continue                      # the temperatures do not separate enough to stay 1 % away from both edges (the probe has identical P(T,V))
-            target = {"below": hmin * 0.95, "between": 0.5 * (hmin + hmax), "above": hmax * 1.05}[cls]
+            # the probe run has bit-identical P(T,V), so margins of 0.5 % are safe; small overshoots (less than half a pressure step)
+            # are part of the quantifier
+            near = bool(rng.random() < 0.5)
+            target = {"below": hmin * (0.995 if near else 0.95), "between": (hmin + min(0.003 * abs(hmin), 0.25 * (hmax - hmin))) if near else 0.5 * (hmin + hmax), "above": hmax * (1.005 if near else 1.05)}[cls]
             if target <= pmin:
                 continue
             ds.settings["DELTA_P"] = (target - pmin) / (ntv - 1)
